@@ -1,3 +1,4 @@
+import Ebu.Generated.Consts
 import Ebu.Spec.Log
 import Ebu.Proofs.Log
 /-!
@@ -74,5 +75,9 @@ theorem ds_replay_untruncated_partial (chunk : Nat) (hc : 0 < chunk) (rs : List 
     (replayPaged (dsOf chunk rs).read {} batch fuel 0 [] []).err = none ∧
     (replayPaged (dsOf chunk rs).read {} batch fuel 0 [] []).delivered.map (·.2) = rs :=
   Ebu.Log.ds_replay_untruncated_partial chunk hc rs h batch hb fuel hf
+
+/-- the model's default batch size is the one in the CURRENT source (extracted from Replay) -/
+theorem default_batch_matches_source : effBatch 0 = Ebu.Generated.Consts.replayDefaultBatch ∧ effBatch (-5) = Ebu.Generated.Consts.replayDefaultBatch := by
+  decide
 
 end Ebu.Props.C11
